@@ -483,6 +483,11 @@ where
 
             // 5. Compute the encoding w = E(v).
             let w = L::encode(&proof.opening.v, vk)?;
+            // The codeword length announced by the commitment fixes how many columns are
+            // opened and where: it must be the length of the code.
+            if w.len() != n_ext_cols {
+                return Err(Error::InvalidCommitment);
+            }
 
             // 6. Compute `a`, `b` to right- and left- multiply with the matrix `M`.
             let (a, b) = L::tensor(point, n_cols, n_rows);
